@@ -17,3 +17,40 @@ Definition wire_ok (c : rcfg) (fs : list sframe) : Prop :=
 
 (* a call result other than "Read returned ErrInvalidUTF8" *)
 Definition not_invalid (o : rout) : Prop := forall d, o <> OutRead d (Some RInvalidUtf8).
+
+(* ------------------------------------------------------------------ the usage of kind RDE as a driver *)
+(* per message: NextFrame; read to the end; on ErrInvalidUTF8 call Discard; go on.
+   One verdict per message, until NextFrame (or Discard) fails. *)
+Inductive verdict := VOk (op : N) (p : list byte) | VInvalid.
+
+Fixpoint judge_stream (fuel : nat) (bufs : list N) (r : reader) : list verdict * rerror :=
+  match fuel with
+  | O => ([], ROutOfFuel)
+  | S f =>
+    let '((h, e), r1) := next_frame r in
+    match e with
+    | Some e => ([], e)
+    | None =>
+      let '((p, e2), r2) := read_to_eof fuel bufs bufs r1 [] in
+      match e2 with
+      | RIo EEOF => let '(vs, e3) := judge_stream f bufs r2 in (VOk (h_op h) p :: vs, e3)
+      | RInvalidUtf8 =>
+        let '(e3, r3) := discard (S (length (flat (r_src r2)))) r2 in
+        match e3 with
+        | Some e3 => ([VInvalid], e3)
+        | None => let '(vs, e4) := judge_stream f bufs r3 in (VInvalid :: vs, e4)
+        end
+      | e2 => ([], e2)
+      end
+    end
+  end.
+
+(* SPEC.  The messages of a frame sequence, by the frame-sequence spec without the UTF-8 rule:
+   its events that are not interleaved control frames (data messages, and control frames
+   standing outside a message, which the Reader delivers like messages), in stream order *)
+Definition messages_of (c : rcfg) (fs : list sframe) : list event :=
+  filter (fun e => negb (ev_inter e)) (sr_events (spec_run (no_utf8 c) 0 None [] fs)).
+(* the verdict on ONE message, from that message alone *)
+Definition verdict_of (c : rcfg) (ev : event) : verdict :=
+  if c_check_utf8 c && (ev_op ev =? 1) && negb (valid_utf8 (ev_payload ev)) then VInvalid
+  else VOk (ev_op ev) (ev_payload ev).
